@@ -890,12 +890,27 @@ func parseBGP4MPMessage(hdr *BGP4MPHeader, isLocal bool, isAddPath bool, data []
 		return nil, fmt.Errorf("not all BGP4MPMessageAS4 bytes available")
 	}
 
-	msg, err := bgp.ParseBGPMessage(rest)
+	msg, err := bgp.ParseBGPMessage(rest, m.bgpMessageOption())
 	if err != nil {
 		return nil, err
 	}
 	m.BGPMessage = msg
 	return m, nil
+}
+
+// bgpMessageOption tells how the embedded BGP message is encoded, which
+// follows from the subtype alone: without the _AS4 subtypes AS numbers are 2
+// octets wide (RFC 6396 4.4.2), the _ADDPATH subtypes carry a path identifier
+// in every NLRI (RFC 8050 3).
+func (m *BGP4MPMessage) bgpMessageOption() *bgp.MarshallingOption {
+	option := &bgp.MarshallingOption{Use2ByteAS: !m.isAS4}
+	if m.isAddPath {
+		option.AddPath = make(map[bgp.Family]bgp.BGPAddPathMode, len(bgp.AddressFamilyNameMap))
+		for family := range bgp.AddressFamilyNameMap {
+			option.AddPath[family] = bgp.BGP_ADD_PATH_BOTH
+		}
+	}
+	return option
 }
 
 func (m *BGP4MPMessage) Serialize() ([]byte, error) {
@@ -906,7 +921,7 @@ func (m *BGP4MPMessage) Serialize() ([]byte, error) {
 	if m.BGPMessagePayload != nil {
 		return append(buf, m.BGPMessagePayload...), nil
 	}
-	bbuf, err := m.BGPMessage.Serialize()
+	bbuf, err := m.BGPMessage.Serialize(m.bgpMessageOption())
 	if err != nil {
 		return nil, err
 	}
